@@ -49,8 +49,8 @@ fn gen_eintr(rng: &mut Rng, len: usize) -> Vec<u32> {
     while v.len() < n {
         let at = if rng.chance(1, 2) { rng.small(12) } else { rng.below(len as u64 + 8) } as u32;
         v.push(at);
-        // runs of up to three consecutive interruptions
-        let run = rng.below(4);
+        // runs of consecutive interruptions: mostly up to three, now and then up to seven
+        let run = if rng.chance(1, 8) { rng.range(4, 7) } else { rng.below(4) };
         for k in 1..run {
             v.push(at + k as u32);
         }
@@ -79,7 +79,7 @@ pub fn gen_reader_benign(rng: &mut Rng, len: usize) -> ReaderCfg {
         eintr_at: gen_eintr(rng, len),
         err: None,
         early_eof: None,
-        eintr_at_eof: if rng.chance(1, 6) { rng.range(1, 3) as u8 } else { 0 },
+        eintr_at_eof: if rng.chance(1, 6) { (if rng.chance(1, 5) { rng.range(4, 7) } else { rng.range(1, 3) }) as u8 } else { 0 },
         err_after_eof: None,
     }
 }
@@ -119,7 +119,12 @@ pub fn gen_writer_benign(rng: &mut Rng, len: usize) -> WriterCfg {
         stack: gen_wstack(rng),
         chunks: gen_chunks(rng),
         eintr_at: gen_eintr(rng, len),
-        flush_eintr_at: if rng.chance(1, 4) { (0..rng.range(1, 3) as u32).collect() } else { vec![] },
+        flush_eintr_at: if rng.chance(1, 4) {
+            let n = (if rng.chance(1, 4) { rng.range(4, 7) } else { rng.range(1, 3) }) as u32;
+            (0..n).collect()
+        } else {
+            vec![]
+        },
         err: None,
         flush_err: None,
     }
